@@ -135,7 +135,7 @@ pub fn run(rep: &mut Rep) {
                 }
                 7 => {
                     // every identifier of every string enumeration, valid and near-miss spellings
-                    let all = ["FIDO_2_0", "FIDO_2_1", "FIDO_2_1_PRE", "U2F_V2", "credProtect", "hmac-secret", "largeBlobKey", "thirdPartyPayment", "nfc", "usb", "none", "packed", "tpm", "FIDO_2_2", "minPinLength"];
+                    let all = crate::mon::c18::REAL_WORLD;
                     let t = all[c.rng.usize(all.len())];
                     let ty = ["Version", "Extension", "Transport", "AttestationStatementFormat"][c.rng.usize(4)];
                     (ty, encode(&crate::cbor::V::text(t)))
